@@ -1096,7 +1096,19 @@ func climbsAboveRoot(absRoot, absPath, target string) bool {
 func cleanSourcePath(p string) string {
 	for _, seg := range strings.Split(filepath.ToSlash(p), "/") {
 		if seg == ".." {
-			if real, err := filepath.EvalSymlinks(p); err == nil {
+			full := p
+			if !filepath.IsAbs(full) {
+				// The working directory as the operating system knows it:
+				// os.Getwd prefers $PWD, which may spell it through a
+				// symlink, and joined onto that spelling ".." would again
+				// be read as text.
+				if wd, err := os.Getwd(); err == nil {
+					if realWd, err := filepath.EvalSymlinks(wd); err == nil {
+						full = realWd + string(filepath.Separator) + p
+					}
+				}
+			}
+			if real, err := filepath.EvalSymlinks(full); err == nil {
 				return real
 			}
 			break
